@@ -116,9 +116,10 @@ Definition parse_spec (s : bytes) (b : list member) (per : list (option member))
          end && (ext =? 1)
   end.
 
+(** re-parsing gives back exactly the same members (c11_reparse_strict) *)
 Definition reparse_spec (b : list member) (re : option (list member)) : bool :=
   match re with
-  | Some b' => map_eqb (norm b') (norm b)
+  | Some b' => map_eqb b' b
   | None => false
   end.
 
@@ -294,7 +295,7 @@ Definition check_case (c : case) : list N :=
             end) V_MISMATCH ++
       (* a non-empty baggage whose header is within the limits replaces whatever the carrier held and extracts to itself *)
       flag (match bm, after with
-            | _ :: _, Some ps => if out_within_limits ps then reparse_spec bm ext else true   (* modulo Spec.norm *)
+            | _ :: _, Some ps => if out_within_limits ps then reparse_spec bm ext else true
             | _ :: _, None => false
             | [], _ => true
             end) V_SPECFAIL
